@@ -227,6 +227,32 @@ def check_case(case):
                 raise Violation('decode-remembers-earlier-packet',
                                 'text %r with attachments %r decoded to %r'
                                 % (text[:80], use, repr(d2.data)[:200]))
+        # ... and of the packet object alone: two packets whose attachments
+        # are handed back alternately (two connections), behind a third one
+        # that was given up half-way
+        try:
+            d0 = P.Packet(encoded_packet=text)
+            if len(atts) >= 2:
+                d0.add_attachment(b'abandoned')
+            da = P.Packet(encoded_packet=text)
+            db = P.Packet(encoded_packet=text)
+            done = []
+            for a, b in zip(atts, other):
+                done.append((da.add_attachment(a), db.add_attachment(b)))
+        except Exception as e:
+            raise Violation('interleaved-reassembly-raised', repr(e))
+        if done and (done[-1] != (True, True) or any(
+                x or y for x, y in done[:-1])):
+            raise Violation('interleaved-reassembly-completion', repr(done))
+        if not strict_eq(da.data, refcodec.reconstruct(r['data'], atts)) or \
+                not strict_eq(db.data, refcodec.reconstruct(r['data'],
+                                                            other)):
+            raise Violation('reassembly-shared-between-packets',
+                            'two packets decoded from %r and reassembled '
+                            'alternately gave %r and %r'
+                            % (text[:80], repr(da.data)[:150],
+                               repr(db.data)[:150]))
+        labels['interleaved_reassembly'] = True
     # ---- oracle 1: round trip
     if _norm_ns(nsp) != (nsp or '/'):
         # decoding drops the query string of a namespace: the decoded packet
